@@ -6,7 +6,9 @@
 (*   index i (existence tracked): f set field, m mutex field, t time field *)
 (*   (quantum YM), v int field; index k with column keys: kf set field with*)
 (*   row keys.  Abstract columns 0,1 (shard 0), 2 (shard 1), 9 (base data, *)
-(*   shard 0).  Base data: f = {(1,9)}, v[9] = 1, keys base / rbase.       *)
+(*   shard 0), 8 (a block of 300 columns of shard 0 written only by bulk   *)
+(*   imports).  Base data: f = {(1,9)}, m = {(1,8)}, v[8] = v[9] = 1, keys *)
+(*   base / rbase.                                                         *)
 (*                                                                         *)
 (* A behaviour is a sequence of writes through the public API.  Each step  *)
 (* record carries the operation, its arguments and `post`, the content of  *)
@@ -69,7 +71,7 @@ VARIABLES f,      \* set field: set of <<row, col>>
 vars == <<f, m, t, v, ex, ck, rk, kf, kex, maxopn, bigcut, hist>>
 
 Init ==
-    /\ f = {<<1, 9>>} /\ m = {} /\ t = {} /\ v = {<<9, 1>>} /\ ex = {9}
+    /\ f = {<<1, 9>>} /\ m = {<<1, 8>>} /\ t = {} /\ v = {<<8, 1>>, <<9, 1>>} /\ ex = {8, 9}
     /\ ck = <<"base">> /\ rk = <<"rbase">> /\ kf = {<<1, 1>>} /\ kex = {1}
     /\ maxopn \in MaxOpNs
     /\ bigcut \in BigCuts
@@ -157,7 +159,11 @@ ImportSets == {
     [shard |-> 0, pairs |-> <<<<2, 0>>, <<1, 1>>>>],
     [shard |-> 0, pairs |-> <<<<2, 0>>>>],
     [shard |-> 1, pairs |-> <<<<1, 2>>>>],
-    [shard |-> 1, pairs |-> <<<<2, 2>>>>] }
+    [shard |-> 1, pairs |-> <<<<2, 2>>>>],
+    \* size class "big batch": column 8 is a block of 300 concrete columns, the batch
+    \* entries of these imports exceed 4096 bytes
+    [shard |-> 0, pairs |-> <<<<2, 8>>>>],
+    [shard |-> 0, pairs |-> <<<<1, 8>>, <<2, 0>>>>] }
 
 Import(fld, is, clear) ==
     /\ f' = IF fld # "f" THEN f ELSE IF clear THEN f \ SeqToSet(is.pairs) ELSE f \cup SeqToSet(is.pairs)
@@ -190,7 +196,11 @@ ValueSets == {
     [shard |-> 0, pairs |-> <<<<0, 2>>, <<9, 6>>>>],
     [shard |-> 0, pairs |-> <<<<0, 6>>, <<1, -3>>, <<9, 5>>>>],
     [shard |-> 1, pairs |-> <<<<2, 5>>>>],
-    [shard |-> 1, pairs |-> <<<<2, 2>>>>] }
+    [shard |-> 1, pairs |-> <<<<2, 2>>>>],
+    \* size class "big batch" (the block, column 8): add batch + remove batch > 4096 bytes
+    [shard |-> 0, pairs |-> <<<<8, 2>>>>],
+    [shard |-> 0, pairs |-> <<<<8, 1>>>>],
+    [shard |-> 0, pairs |-> <<<<8, 6>>, <<0, 5>>>>] }
 
 ImportValue(vs) ==
     LET cols == {p[1] : p \in SeqToSet(vs.pairs)}
